@@ -338,7 +338,9 @@ def structure_family():
               "{q}\n;\n\n\n"]
     for q in bases:
         for sh in shapes:
-            for rules in ("all", "core", "convention"):
+            # single rules as well: under a rule group a second rule of the same pass can repair (and so hide)
+            # what the first one broke
+            for rules in ("all", "core", "convention", "CV07", "CV06", "LT01,LT02"):
                 yield {"dialect": "ansi", "sql": sh.replace("{q}", q), "rules": rules, "origin": "structure-family"}
 
 
